@@ -848,7 +848,7 @@ def assert_bv_only(e, seen=None):
     stack.extend(x.children())
 
 
-def bmc(sysm: System, bad_final=None, bad_any=None, depths=(40, 80, 120, 160), timeout_s=1200, want_trace_of_ok=False, bad_stuck=None):
+def bmc(sysm: System, bad_final=None, bad_any=None, depths=(40, 80, 120, 160), timeout_s=1200, want_trace_of_ok=False, bad_stuck=None, progress=None):
   """bad_final(enc, st) / bad_any(enc, st): z3 Bool over a state. Returns Result."""
   enc = Encoder(sysm)
   enc._ppset = [set(p) for p in enc.pp]
@@ -874,6 +874,8 @@ def bmc(sysm: System, bad_final=None, bad_any=None, depths=(40, 80, 120, 160), t
     tq = time.time()
     sol.push()
     sol.add(*extra)
+    # the budget is for the whole scenario: a query may only use what is left of it
+    sol.set('timeout', max(1000, int((timeout_s - (tq - t0)) * 1000)))
     r = sol.check()
     m = sol.model() if r == z3.sat else None
     sol.pop()
@@ -966,11 +968,14 @@ def bmc(sysm: System, bad_final=None, bad_any=None, depths=(40, 80, 120, 160), t
       print('DEBUG bads', [(nm, str(z3.simplify(m.eval(b, model_completion=True)))[:200]) for nm, b in zip(names, bads)], 'running', z3.simplify(m.eval(running, model_completion=True)), 'ah', z3.simplify(m.eval(ah, model_completion=True)))
     if r == z3.sat and not any(holds(b) for b in bads):
       res.verdict = 'bound'; res.depth = K
+      if progress: progress(K, time.time() - t0)
       res.detail = f'some thread can still run at depth {K}'
       res.bound_trace = extract(enc, sysm, m, states, scheds, choices)      # diagnostics only
       res.bound_trace['enabled_at_bound'] = [bool(z3.is_true(m.eval(e_, model_completion=True))) for e_ in enK]
       res.bound_trace['sched'] = [m.eval(x, model_completion=True).as_long() for x in scheds]
       if time.time() - t0 > timeout_s:
+        res.detail = f'time budget exhausted after depth {K}'
+        res.budget_exhausted = True
         break
       continue
     if r == z3.sat:
@@ -981,7 +986,12 @@ def bmc(sysm: System, bad_final=None, bad_any=None, depths=(40, 80, 120, 160), t
       res.trace = extract(enc, sysm, m, states, scheds, choices)
       break
     if r == z3.unknown:
-      res.verdict = 'unknown'; res.detail = f'solver unknown at depth {K}'; res.depth = K
+      if res.verdict == 'bound' and res.depth:
+        # time budget used up while deciding level K: every interleaving of up to res.depth macro-steps has been decided
+        res.detail = f'time budget exhausted at depth {K}; last decided depth {res.depth}'
+        res.budget_exhausted = True
+      else:
+        res.verdict = 'unknown'; res.detail = f'solver unknown at depth {K}'; res.depth = K
       break
     r2, m2 = check(z3.Not(nobodyK))
     res.depth = K
